@@ -260,7 +260,7 @@ type hflow struct {
 	img     *hart // the BIOSImage registered in the state (nil: none)
 	actors  []*hactor
 	steps   []hstep
-	uefi    bool     // img parses as UEFI
+	uefi    bool     // uefi.ParseUEFIFirmwareBytes accepts img
 	exec    []hrange // executable files (image offsets), as built
 	exact   bool     // every range lies inside its artifact: the bitmap oracle applies
 	d6      bool     // two RawBytes artifacts are referenced
